@@ -45,6 +45,6 @@ REQUIREMENTS FOR EACH MUTANT
   2. The change must be something that could plausibly slip through code review: a refactor that drops a case, an off-by-one in a boundary, a changed operator or comparison, a reordered pair of statements, a handler that catches too much or too little, a missing reset, a wrong variable of the same type, an "optimisation" that skips a step. Not an obviously malicious or nonsensical edit, and not one that ordinary use would expose at once.
   3. The violation should need something SPECIFIC to manifest: a particular interleaving or message order, a crash or fault at a particular point, a multi-step sequence of operations, an unusual but legal input (boundary value, zero, empty element, special character), or two cooperating sites that each look fine alone. Prefer mutants that differ from each other in mechanism and location (different functions / different clauses of the property).
   4. Keep each change small (typically 1-10 changed lines).
-  5. Make sure each mutant is built and verified from a clean worktree: `git -C {wt} checkout -- .` between mutants; leave the worktree clean (no uncommitted changes, no stray files) when you are done.
+  5. Make sure each mutant is built and verified from a clean worktree: `git -C {wt} checkout -- .` between mutants; leave the worktree clean (no uncommitted changes, no stray files) when you are done. NEVER use `git stash` (the stash is shared between all worktrees of the repository and other people work in theirs at the same time): save your change with `git diff > file` and restore it with `git apply file`.
 
 When finished, reply with a short list: for each mutant its directory, the file/function changed, one sentence on the broken clause and the trigger, and confirmation that (a) demo fails with / passes without the patch and (b) the full test suite still passes with the patch.""")
